@@ -388,7 +388,10 @@ func uniq(in []uint32) []uint32 {
 }
 
 func versions() [][]byte {
-	return [][]byte{[]byte("9P2000"), []byte("9P2000.u"), []byte("9P2000.L"), []byte("9P1999"), {}, script.PRF("version", 300)}
+	return [][]byte{[]byte("9P2000"), []byte("9P2000.u"), []byte("9P2000.L"), []byte("9P1999"), {}, script.PRF("version", 300),
+		// near misses of the one string that asks for the extension
+		[]byte("9P2000.ul"), []byte("9P2000.u.1"), []byte("9P2000.u2"), []byte("9P2000.uu"), []byte("9P2000.U"), []byte("9P2000."),
+		[]byte("9P2000.u\x00"), []byte(" 9P2000.u"), []byte("9p2000.u"), []byte("9P2000.u "), []byte("P2000.u"), []byte("9P2000u")}
 }
 
 // refusalNeedsRoom is the signature of the listed finding findErrNoFit for a
@@ -502,7 +505,50 @@ func TestEnumNegotiation(t *testing.T) {
 		}
 	}
 	hx.ExtraAdd("negotiations", int64(n))
-	hx.Exhaustive("negotiation grid: server msize {unset, 24, 25, 32, 64, 128, 4096, 8192, 65560, 1 MiB+24} x client msize {0, 1, 23, 24, 25, s-1, s, s+1, 2^16, 2^31, 2^32-1} x server 9P2000.u on/off x version string {9P2000, 9P2000.u, 9P2000.L, 9P1999, empty, 300 arbitrary bytes}, raw Tversion, followed by Tattach and a refused Tclunk in the negotiated dialect")
+	hx.Exhaustive("negotiation grid: server msize {unset, 24, 25, 32, 64, 128, 4096, 8192, 65560, 1 MiB+24} x client msize {0, 1, 23, 24, 25, s-1, s, s+1, 2^16, 2^31, 2^32-1} x server 9P2000.u on/off x version string {9P2000, 9P2000.u, 9P2000.L, 9P1999, empty, 300 arbitrary bytes, 12 near misses of 9P2000.u (suffix, prefix, case, NUL, blank, missing byte)}, raw Tversion, followed by Tattach and a refused Tclunk in the negotiated dialect")
+}
+
+// TestPropVersionStrings: version strings one or two edits away from the two
+// canonical ones (a byte appended, prepended, inserted, deleted, replaced,
+// case flipped): the extension is spoken only for exactly "9P2000.u".
+func TestPropVersionStrings(t *testing.T) {
+	hx.Check(t, "neg", hx.N(150, 2000), func(t *rapid.T) {
+		v := []byte(rapid.SampledFrom([]string{"9P2000.u", "9P2000.u", "9P2000"}).Draw(t, "base"))
+		for k := rapid.IntRange(1, 2).Draw(t, "edits"); k > 0; k-- {
+			pos := rapid.IntRange(0, len(v)).Draw(t, "pos")
+			ch := rapid.SampledFrom([]byte{'.', 'u', 'U', 'l', 'L', '0', '2', '9', 'P', 0, ' ', '1'}).Draw(t, "byte")
+			switch rapid.IntRange(0, 3).Draw(t, "edit") {
+			case 0: // insert
+				v = append(v[:pos:pos], append([]byte{ch}, v[pos:]...)...)
+			case 1: // delete
+				if pos < len(v) {
+					v = append(v[:pos:pos], v[pos+1:]...)
+				}
+			case 2: // replace
+				if pos < len(v) {
+					v = append([]byte(nil), v...)
+					v[pos] = ch
+				}
+			case 3: // flip case
+				if pos < len(v) {
+					v = append([]byte(nil), v...)
+					v[pos] ^= 0x20
+				}
+			}
+		}
+		nc := &NegCase{SrvMsize: rapid.SampledFrom([]uint32{0, 128, 8192}).Draw(t, "srv"), CliMsize: rapid.SampledFrom([]uint32{64, 8192, 0xFFFFFFFF}).Draw(t, "cli"),
+			SrvDotu: rapid.IntRange(0, 3).Draw(t, "srvdotu") > 0, Version: v}
+		hx.Journal("neg", nc)
+		hx.Eval()
+		hx.Sample("neg", nc)
+		hx.Label("neg version string near miss")
+		if string(v) != "9P2000.u" && string(v) != "9P2000" {
+			hx.NonTrivial("negstr", nc.SrvMsize, nc.CliMsize, nc.SrvDotu, v)
+		}
+		if err := finish(runNeg(nc)); err != nil {
+			hx.Failf(t, "neg", nc, "%v", err)
+		}
+	})
 }
 
 // TestEnumNegotiationSequences: a refused Tversion has no side effects. On one
